@@ -7,20 +7,14 @@ Open Scope Z_scope.
 
 (* Layer B: the document read from the emitted text, observation points (named signals, then top-level output
    port wires), initial input values, stimulus.  One row per settle: status, then the observations. *)
-Definition k_run (alt f7 obsmem : bool) (d : doc) (obs : list (option (list nat * nat * Z)))
-                 (ports : list (list nat * nat * Z)) (init_ins : list (nat * Z))
-                 (stim stim_f7 : list sstep) : list Z :=
+Definition k_run (alt obsmem : bool) (d : doc) (obs : list (option (list nat * nat * Z)))
+                 (ports : list (list nat * nat * Z)) (init_ins : list (nat * Z)) (stim : list sstep) : list Z :=
   let o := obs ++ map (fun p => Some p) ports in
   let sf := SHIFT_SIGNED_FILLS_SIGN in
   run_gen sf obsmem d o init_ins stim ++
   (* designs with a part-select of a signed value: the same run under the OTHER reading of $shift, after -6
      (lets the harness tell finding C04-part-select-signed-shift-zero-fill from any other disagreement) *)
-  (if alt then -6 :: run_gen (negb sf) obsmem d o init_ins stim else []) ++
-  (* designs with an async-reset domain: the same run with the simulator's behaviour F7 (a reset rise pulses the
-     domain's clock for every clocked element), after -7; must reproduce the simulator EXACTLY for a disagreement
-     of the first run to count as finding F7 *)
-  (if f7 then -7 :: run_gen sf obsmem d o init_ins stim_f7 else []) ++
-  (if alt && f7 then -8 :: run_gen (negb sf) obsmem d o init_ins stim_f7 else []).
+  (if alt then -6 :: run_gen (negb sf) obsmem d o init_ins stim else []).
 
 (* ---- AssignmentList lowering (emit_value, emit_assignment_list) on data read from the real netlist ---- *)
 (* nets: 0 / 1 = constants, n >= 2 = net number n - 2 *)
